@@ -195,7 +195,7 @@ def check_promptness():
     return out
 
 
-CORPUS = [["1" * 400 + " spam\nfry(1 spam)"], ["1" * 400 + " g spam\nfry(" + "1" * 397 + ".0 kg spam)"], ["1" * 4301 + " spam"],
+CORPUS = [["{}"], ["2 {}"], ["mix(flour, salt {})"], ["{} = boil(water)\nserve({})"], ["fry('')"], ["a {}{} b"], ["1" * 400 + " spam\nfry(1 spam)"], ["1" * 400 + " g spam\nfry(" + "1" * 397 + ".0 kg spam)"], ["1" * 4301 + " spam"],
           ["1/0 x"], ["2 1/0 kg x"], ["{1/0} x"], ["x {a 3/0 b}"], [" ".join(["'a'"] * 80)], ["f(" * 25 + "x" + ")" * 25], ["9" * 310 + " x"],
           [""], ["\n"], ["x ="], ["a = b = c"], ["1/ spam"], ["foo, foo = spam"], ["50% x"], ["x\nx = 1\n rest of y"]]
 MD_CORPUS = ["{1/0}", "![{2} eggs](x.png)", "# T\n\n    1/0 x\n", "# Title for 2\n\n    2 eggs\n", "```recipe\nx = \n```\n", "text {3 1/2} more {x\\}}"]
